@@ -22,6 +22,52 @@ def lam(x, y, z):
     return x**2 + y**2 + z**2 - 2 * (x * y + y * z + z * x)
 
 
+def check_kallen_paths(ctx: Check, tree: Tree) -> None:
+    """Every path of Kallen.evaluate returns the Kallen polynomial: a special case guarded by an
+    equality of two arguments (equal masses, a vanishing argument) must return the polynomial
+    restricted to that case."""
+    from ..terms import Tup
+
+    D.reset()
+    te = TermEval(tree)
+    te.fork = True
+    kallen = tree.cls(f"{MOD}::Kallen")
+    ev = kallen.methods["evaluate"]
+    x, y, z = map(sym, "xyz")
+    env = te.self_env(kallen.qual, te.apps[te.single_atom(te.construct(kallen.qual, [x, y, z], {}))])
+    res = te.eval_body(ev.node.body, env, ev)
+    if not isinstance(res, PW):
+        return  # straight-line: judged by the rules below
+    ref = lam(x, y, z)
+    for val, cond in res.branches:
+        conds = cond.items if isinstance(cond, Tup) else [cond]
+        v, r = te._rf(val), ref
+        label = []
+        for c in conds:
+            if isinstance(c, Rel) and c.op == "==":
+                a, b = te._rf(c.lhs), te._rf(c.rhs)
+                atom = te.single_atom(b) if isinstance(b, RF) else None
+                if atom is not None:
+                    v, r = v.substitute(atom, a), r.substitute(atom, a)
+                    label.append(f"{a!r} == {b!r}")
+                    continue
+                atom = te.single_atom(a) if isinstance(a, RF) else None
+                if atom is not None:
+                    v, r = v.substitute(atom, b), r.substitute(atom, b)
+                    label.append(f"{a!r} == {b!r}")
+                    continue
+                raise AnalysisError(f"Kallen.evaluate: path condition `{c!r}` is not an equality with a plain argument")
+            elif isinstance(c, Opaque) and c.key and c.key[0] == "else-of":
+                label.append("otherwise")
+            else:
+                raise AnalysisError(f"Kallen.evaluate: path condition `{c!r}` outside the grammar")
+        ok = equal(v, r)
+        name = " and ".join(label) or "always"
+        ctx.verdict(ok, "R-TERM", f"{kallen.qual}.evaluate::path {name}", tree.loc(ev.node),
+                    f"Kallen.evaluate on the path `{name}` returns x^2+y^2+z^2-2xy-2yz-2zx restricted to that case",
+                    None if ok else {"returned": repr(v)[:200], "expected": repr(r)[:200]})
+
+
 def run(ctx: Check, tree: Tree) -> None:
     ctx.decided += [
         "R-ARGORDER (shared with C14): Kibble/Kallen unpack self.args positionally; .args are in field-declaration order however the caller spells keyword arguments",
@@ -44,7 +90,13 @@ def run(ctx: Check, tree: Tree) -> None:
 
     x, y, z, u, v = map(sym, "xyzuv")
     where = tree.loc(kallen.methods["evaluate"].node)
-    base = K(x, y, z)
+    check_kallen_paths(ctx, tree)
+    try:
+        base = K(x, y, z)
+    except AnalysisError:
+        if any(i.rule == "R-TERM" and i.verdict == "violation" and "Kallen" in i.key for i in ctx.instances):
+            return  # the special-case path is already reported; the other rules need the straight-line form
+        raise
     perms = list(itertools.permutations([x, y, z]))
     sym_ok = all(equal(base, K(*p)) for p in perms)
     ctx.verdict(sym_ok, "R-TERM", f"{kallen.qual}.evaluate::symmetric", where, "Kallen(x,y,z) invariant under the 6 permutations of its arguments",
